@@ -295,8 +295,8 @@ def _defect_specs(rng, quick):
             o1 = _obj(rng, [small], 2, False)
             o2 = _obj(rng, [other_open], 2, False)
             out.append({'kind': 'identical', 'o1': o1, 'o2': o2, 'direction': None, 'defect': 'periodic-small'})
-            other_per = _basis(p, k, [(0.25, 1), (0.5, 1), (0.75, 1)] + ([(0.125, 1), (0.375, 1), (0.625, 1)] if k >= 1 else []),
-                               rng=rng, mode='dyadic')
+            other_per = _basis(p, k, sorted([(0.25, 1), (0.5, 1), (0.75, 1)] + ([(0.125, 1), (0.375, 1), (0.625, 1)] if k >= 1 else [])),
+                               rng=rng, mode='dyadic')     # (interior knots must be increasing)
             o3 = _obj(rng, [other_per], 2, False)
             out.append({'kind': 'identical', 'o1': _obj(rng, [small], 2, False), 'o2': o3, 'direction': 0, 'defect': 'periodic-small'})
         # (b) an order-1 direction and a raise in some direction: greville() divides by zero
@@ -753,10 +753,7 @@ def classify(s, res=None):
         return 'periodic-rounded-ghost-knots-out-of-range'
     if _straddle(s):
         return 'knots-straddling-tolerance-window'
-    small = any(_small(o['bases'][d]) for o in (s['o1'], s['o2']) for d in req)
-    if small:
-        differ = any(s['o1']['bases'][d]['periodic'] != s['o2']['bases'][d]['periodic'] for d in req)
-        return 'periodic-insert-small-basis' if differ else 'periodic-small-basis-geometry'
+    # (`periodic-insert-small-basis`, `periodic-small-basis-geometry`: fixed with periodic insert_knot)
     if 'ZeroDivisionError' in txt and any(b['order'] == 1 for o in (s['o1'], s['o2']) for b in o['bases']):
         return 'order1-direction-greville-zerodivision'
     if pd == 1 and max(_dim(s['o1']), _dim(s['o2'])) == 1 and not (s['o1']['rational'] or s['o2']['rational']) \
